@@ -221,7 +221,7 @@ def check_case(ctx, case):
             if not reachable(sp if kind == "bin_s" else flat, n_act):
                 ctx.count("skipped:rejection_sampler_needs_rare_bins:" + name)
                 continue
-            budget = nsim * (20000 * n_act + 20000)   # expected <= 100*n_act per simulation
+            budget = nsim * (3000 * n_act + 3000)   # expected <= 100*n_act per simulation; P(a bin of weight >= 1e-2 missed in 3000 draws) < 1e-13
         real_uniform = numpy.random.uniform
         ndraw = [0]
 
